@@ -38,7 +38,7 @@ TRUSTED = ['modelled, not verified: io.BytesIO, struct.pack/unpack of >H, <3L, >
            '(histories stop there on both sides)']
 
 FILE_NUMS = [0, 1, 255, 65535, 65536 + 7, -1]
-F22 = 'F22'
+F22 = 'C05-tif-reversed-first-next-0x10000'
 
 
 def _impl():
